@@ -660,6 +660,8 @@ class C06(Property):
         "frame", "frame_partial", "frame_observe", "frame_of_pre", "step_pre", "instance_local",
         "schema_fields", "addUnseen_spec", "addAndOverwrite_spec",
         "WF_of_wfB", "C06_full_fails",
+        "userFields_preparedFields", "compound_fields_history_independent", "compoundInit_stores",
+        "compoundInit_preparedFrom", "lookup_ne_preparedFrom",
     )]
     level_text = "proof"
     level_note = ("frame (every non-lazy-preparation step leaves every observable attribute and property of every "
@@ -667,7 +669,9 @@ class C06(Property):
                   "proved for all stores/inputs of the model; the unrestricted frame statement C06_Full is false because of "
                   "the lazy preparation of compound types (negation witness); well-formedness of reachable stores, the frame "
                   "condition for lazy preparation (all attributes but field_schema) and history independence are checked by "
-                  "the runner/oracle on every generated chain, not proved")
+                  "the runner/oracle on every generated chain, not proved; the regeneration rule of DateYYYYMMDD (member list after "
+                  "preparation = user-supplied members + year/month/day generated from the class's own optional, whether or "
+                  "not an ancestor was prepared before) is proved as compound_fields_history_independent")
     technique = "Lean 4 model (class store + heap of list objects) + frame theorem by store extension; differential testing"
     trusted_base = [
         "Python's class machinery (type(), attribute lookup along a single-inheritance MRO, instance __dict__) is the "
@@ -682,7 +686,9 @@ class C06(Property):
     rule = ("chains of 2-12 constructor calls (named, using with 1-3 overrides incl. validators/properties/unknown "
             "attribute, validated_by, including_validators with positions -6..9, descent variants, with_properties, of, "
             "valued, to) and plain/overriding instantiations at random points, starting from a fresh subclass of each of "
-            "9 built-in types (DateYYYYMMDD = lazily prepared compound); plus declarative Schema hierarchies of 1-5 classes "
+            "9 built-in types (DateYYYYMMDD = lazily prepared compound); 15% of the cases are DateYYYYMMDD chains with 0-4 "
+            "user-supplied Integer members (using(field_schema=[…]), some optional) interleaved with plain/overriding "
+            "instantiations and using(optional=…) at every point; plus declarative Schema hierarchies of 1-5 classes "
             "with 0-3 bases, explicit field_schema lists and attribute declarations over 4 overlapping names; non-trivial = "
             ">= 3 successful derivations and one instantiation, or a schema with a multi-base class; distinct = distinct "
             "canonical case JSON")
